@@ -354,7 +354,10 @@ def run(ctx):
 
     # ---- R10.8 deadpool-runtime ----------------------------------------------------------------------------------------------
     rt = prog.body('deadpool_runtime::Runtime::timeout::{closure#0}')
-    if rt is None:
+    rtc = prog.crates.get('deadpool_runtime')
+    if rtc is not None and 'tokio_1' not in rtc.features:
+        ctx.undecide('R10.8', 'deadpool-runtime was compiled without the tokio_1 feature in this configuration (no Tokio1 arm to analyse)')
+    elif rt is None:
         ctx.undecide('R10.8', 'deadpool_runtime::Runtime::timeout not extracted')
     else:
         ctx.saw(rt)
